@@ -903,6 +903,7 @@ def check_fs(rep, tier):
     os.makedirs(root)
     is_root = (os.geteuid() == 0)
     steps = []     # (case, expectation, label, python post-check or None)
+    step_calls = []
     forms = ["host", "wrapper", "literal"]
 
     def P(*parts):
@@ -911,6 +912,7 @@ def check_fs(rep, tier):
     def add(fn, args, expect, label, post=None, pre=None):
         form = forms[len(steps) % 3]
         steps.append((fs_call(form, fn, *args), expect, label, post, pre))
+        step_calls.append((fn, list(args)))
     try:
         # --- missing things
         add("file_read_to_string", [P("missing.txt")], "err", "read missing file")
@@ -1017,7 +1019,7 @@ def check_fs(rep, tier):
 
         # one process, sequential: the steps depend on each other; pre/post actions need the
         # harness to answer step by step, so each step is its own process invocation
-        for case, expect, label, post, pre in steps:
+        for (case, expect, label, post, pre), (fn_, args_) in zip(steps, step_calls):
             if pre:
                 try:
                     pre()
@@ -1028,6 +1030,18 @@ def check_fs(rep, tier):
             rep.evaluations += 1
             rep.distinct.add(case)
             rep.count("L12.fs")
+            if fn_ == "file_read_to_string":
+                # the result consumed by a `match` that is exhaustive for the DECLARED result type: a value
+                # outside that type (e.g. an error struct whose code is not an int) falls through every arm
+                prog = (f"match std.fs.{fn_}({', '.join(lit_str(a) for a in args_)}) " +
+                        "{ e: struct{error_code: int, msg: string} => { 1 }, s: string => { 2 }, }")
+                mcase = f'(run "{esc_prog(prog)}")'
+                mout = common._run_shard(common.HARNESS, [mcase], 60)[0]
+                rep.evaluations += 1
+                rep.count("L12.fs.matched")
+                common.attribute_panics(rep, "L12", [mcase], [mout])
+                if not mout.startswith("!panic") and mout not in ("ok (i 1)", "ok (i 2)"):
+                    violation(rep, f"fs `{label}`: an exhaustive match on the declared result type gives {mout[:120]}", mcase)
             shape_ok, kind = False, None
             if out.startswith("ok "):
                 v = parse_sexp(out[3:])
